@@ -514,6 +514,7 @@ func (d *Decoder) decodeData(tr TemplateRecord) ([]DecodedField, error) {
 	)
 
 	r := d.reader
+	startCount := r.ReadCount()
 
 	for i := 0; i < len(tr.ScopeFieldSpecifiers); i++ {
 		m, ok := InfoModel[ElementKey{
@@ -567,7 +568,9 @@ func (d *Decoder) decodeData(tr TemplateRecord) ([]DecodedField, error) {
 		})
 	}
 
-	if len(fields) == 0 {
+	// a record that consumes no octets (no fields, or only zero-length fields)
+	// would be decoded over and over again
+	if len(fields) == 0 || r.ReadCount() == startCount {
 		return nil, fmt.Errorf("failed to decodeData")
 	}
 
